@@ -21,7 +21,7 @@ RULE = (
     "(operation, parameters, screen hash); raising = did not return; non-trivial = returned and input has >=2 unobserved plates or >=2 samples"
 )
 ASSUMPTIONS = ["NPlatePerCellLine: 'no sample' is read as no sample that still has unobserved experiments in the output (the observed part passes through, C11)"]
-REQUIRED = {"cli_shape_runs": {"quick": 12, "thorough": 120}, "returned_SampleSegregating": {"quick": 150, "thorough": 3000}, "returned_Pairwise": {"quick": 40, "thorough": 1000}, "returned_MergeMin": {"quick": 60, "thorough": 1500}, "returned_MergeTopBottom": {"quick": 60, "thorough": 1500}, "returned_FixedSize": {"quick": 80, "thorough": 2000}, "returned_OptimalSize": {"quick": 80, "thorough": 2000}, "returned_NPlatePerCellLine": {"quick": 60, "thorough": 1500}, "returned_SparseCover": {"quick": 80, "thorough": 2000}, "returned_combo_filter": {"quick": 80, "thorough": 2000}}
+REQUIRED = {"combo_filter_combination_free_cases": {"quick": 8, "thorough": 200}, "cli_shape_runs": {"quick": 12, "thorough": 120}, "returned_SampleSegregating": {"quick": 150, "thorough": 3000}, "returned_Pairwise": {"quick": 40, "thorough": 1000}, "returned_MergeMin": {"quick": 60, "thorough": 1500}, "returned_MergeTopBottom": {"quick": 60, "thorough": 1500}, "returned_FixedSize": {"quick": 80, "thorough": 2000}, "returned_OptimalSize": {"quick": 80, "thorough": 2000}, "returned_NPlatePerCellLine": {"quick": 60, "thorough": 1500}, "returned_SparseCover": {"quick": 80, "thorough": 2000}, "returned_combo_filter": {"quick": 80, "thorough": 2000}}
 N_OPS = {"quick": 4800, "thorough": 64000}
 
 
@@ -223,7 +223,22 @@ def run_shard(rec, tier, seed, shard, nshards):
             kw = gen.realistic_screen_kwargs(rng, n_samples=(1, 3), n_drugs=(3, 6), n_doses=(1, 2), n_rows=(4, 40), n_plates=(1, 4), p_single=0.2, p_dup=0.1, p_double_control=0.05, observed="none", arity=3)
             flavour = "arity3"
             rec.count("combo_filter_arity3_cases")
-        if name in ("MergeMin", "MergeTopBottom", "NPlatePerCellLine") and flavour == "few_per_sample":
+        if name == "combo_filter" and rng.random() < 0.2:
+            # degenerate but legal: no experiment is a full combination (single agents only, with or without vehicle
+            # wells; three columns holding pairs at most) - then no treatment occurs in a full combination
+            c = kw["control_treatment_name"]
+            tn, td = kw["treatment_names"].astype(object), kw["treatment_doses"].copy()
+            for i in range(len(tn)):
+                full = all(str(x) != c for x in tn[i]) and bool((td[i] > 0).all())
+                if full:
+                    j = int(rng.integers(tn.shape[1]))
+                    if rng.random() < 0.5:
+                        tn[i, j] = c
+                    td[i, j] = 0.0
+            kw["treatment_names"], kw["treatment_doses"] = tn.astype(str), td
+            flavour += "-no-full-combination"
+            rec.count("combo_filter_combination_free_cases")
+        if name in ("MergeMin", "MergeTopBottom", "NPlatePerCellLine") and flavour.startswith("few_per_sample"):
             kw, flavour = RC.retro_screen_kwargs(rng, "per_sample")
         if name == "SparseCover":
             kw.pop("observation_mask", None)
